@@ -634,6 +634,26 @@ func checkC11Wiring(p *Prog, r *Report, ru *Rule) {
 		sl := p.Field(hsrvPkg, "Server", "sl")
 		okk := false
 		eachInstr(rl, func(i ssa.Instruction) {
+			/* slog.New(s.sl.Handler().WithAttrs(…)) is s.sl.With(…) with
+			the attributes already typed. */
+			if c, ok := i.(*ssa.Call); ok && "(*log/slog.Logger).Handler" == calleeName(c.Common()) {
+				if fv, _ := loadedField(c.Common().Args[0]); fv == sl {
+					for _, ref := range *c.Referrers() {
+						wa, isCall := ref.(*ssa.Call)
+						if !isCall || !wa.Common().IsInvoke() || wa.Common().Value != ssa.Value(c) {
+							continue
+						}
+						if mn := wa.Common().Method.Name(); "WithAttrs" != mn && "WithGroup" != mn {
+							continue
+						}
+						for _, r2 := range *wa.Referrers() {
+							if nc, isNew := r2.(*ssa.Call); isNew && "log/slog.New" == calleeName(nc.Common()) {
+								okk = true
+							}
+						}
+					}
+				}
+			}
 			if c, ok := i.(*ssa.Call); ok && "(*log/slog.Logger).With" == calleeName(c.Common()) {
 				if fv, _ := loadedField(c.Common().Args[0]); fv == sl {
 					okk = true
